@@ -153,6 +153,11 @@ func (r *ReqResult) Cancel() { r.cancel() }
 // reading both channels until they are closed.
 func (n *Node) Request(f *Fixture, to peer.ID, root ipld.Link, sel datamodel.Node, id graphsync.RequestID, exts ...graphsync.ExtensionData) *ReqResult {
 	ctx, cancel := context.WithCancel(f.Ctx)
+	return n.RequestCtx(ctx, cancel, to, root, sel, id, exts...)
+}
+
+// RequestCtx is Request with a caller-made context (so that it can be cancelled while the call is in progress).
+func (n *Node) RequestCtx(ctx context.Context, cancel context.CancelFunc, to peer.ID, root ipld.Link, sel datamodel.Node, id graphsync.RequestID, exts ...graphsync.ExtensionData) *ReqResult {
 	ctx = context.WithValue(ctx, graphsync.RequestIDContextKey{}, id)
 	res := &ReqResult{ID: id, Done: make(chan struct{}), cancel: cancel}
 	resp, errs := n.GS.Request(ctx, to, root, sel, exts...)
